@@ -135,9 +135,9 @@ namespace chaiscript {
 
           for (size_t i = 0; i < num_children; ++i) {
             const auto &child = *node->children[i];
-            if ((child.identifier != AST_Node_Type::Id && child.identifier != AST_Node_Type::Constant
-                 && child.identifier != AST_Node_Type::Noop)
-                || i == num_children - 1) {
+            // only statements that can neither fail nor have an effect may go: evaluating an identifier
+            // raises an error when the name does not exist, so it has to stay
+            if ((child.identifier != AST_Node_Type::Constant && child.identifier != AST_Node_Type::Noop) || i == num_children - 1) {
               keepers.push_back(i);
             }
           }
